@@ -1320,10 +1320,21 @@ impl Property for C06 {
                     let name = g.array(rng);
                     let nd = 1 + rng.usize(3);
                     let dims: Vec<i16> = (0..nd).map(|_| *rng.pick(&[0i16, 1, 2, 5, 10, 11, 100])).collect();
-                    if !g.dims.contains_key(&name) {
+                    let mut bounds: Vec<Expr> = dims.iter().map(|d| Expr::Int(*d)).collect();
+                    if !g.dims.contains_key(&name) && rng.pct(15) {
+                        // a DIM that fails on one of its bounds must leave nothing behind: the array
+                        // is still undimensioned afterwards (auto-dimension 10, a later DIM is legal)
+                        let k = rng.usize(bounds.len());
+                        bounds[k] = match rng.below(3) {
+                            0 => Expr::Sng(40000.0),
+                            1 => Expr::int(-1),
+                            _ => Expr::Str("x".into()),
+                        };
+                        touched.push(LVal::arr(&name, (0..nd).map(|_| Expr::Int(1)).collect()));
+                    } else if !g.dims.contains_key(&name) {
                         g.dims.insert(name.clone(), dims.clone());
                     }
-                    vec![Stmt::Dim(vec![LVal::arr(&name, dims.iter().map(|d| Expr::Int(*d)).collect())])]
+                    vec![Stmt::Dim(vec![LVal::arr(&name, bounds)])]
                 }
                 47..=52 => {
                     let name = g.array(rng);
@@ -1406,7 +1417,7 @@ impl Property for C06 {
         }
     }
     fn rule(&self) -> &'static str {
-        "one evaluation = a direct-mode session of 3-27 store operations over a universe of names chosen to collide if keys were built carelessly (A% A! A# A$ / B F FA X X2 X22 AB, arrays of 1-3 dimensions, subscripts from {0, 1, bound-1, bound, bound+1, 10, 11, 32767, -1, 1.5, \"x\"}): typed LET incl. failing ones (OVERFLOW, TYPE MISMATCH, STRING TOO LONG, SUBSCRIPT OUT OF RANGE), DIM / second DIM / ERASE / implicit dimensioning, DEFINT/SNG/DBL/STR on ranges, SWAP same-typed and mixed, FOR over typed variables, INPUT into scalars and elements, MID$ assignment, CLEAR, RUN; after EVERY operation a probe line prints the touched names and a sample of others and is compared with RefBASIC's typed map; (6%) a mixed-type SWAP or another failing store inside a stored program (top level or in a subroutine called from a FOR), RUN, probe of both operands, CONT, probe again: a rejected SWAP must leave both operands unchanged for good; distinct = distinct API/event log fingerprint"
+        "one evaluation = a direct-mode session of 3-27 store operations over a universe of names chosen to collide if keys were built carelessly (A% A! A# A$ / B F FA X X2 X22 AB, arrays of 1-3 dimensions, subscripts from {0, 1, bound-1, bound, bound+1, 10, 11, 32767, -1, 1.5, \"x\"}): typed LET incl. failing ones (OVERFLOW, TYPE MISMATCH, STRING TOO LONG, SUBSCRIPT OUT OF RANGE), DIM / second DIM / DIM failing on a bound / ERASE / implicit dimensioning, DEFINT/SNG/DBL/STR on ranges, SWAP same-typed and mixed, FOR over typed variables, INPUT into scalars and elements, MID$ assignment, CLEAR, RUN; after EVERY operation a probe line prints the touched names and a sample of others and is compared with RefBASIC's typed map; (6%) a mixed-type SWAP or another failing store inside a stored program (top level or in a subroutine called from a FOR), RUN, probe of both operands, CONT, probe again: a rejected SWAP must leave both operands unchanged for good; distinct = distinct API/event log fingerprint"
     }
     fn assumptions(&self) -> Vec<&'static str> {
         vec![
